@@ -16,7 +16,8 @@ ID = "C18"
 COQ_PROPS = "Props/C18.v"
 THEOREMS = ["C18_partition", "C18_classes", "C18_permutation", "C18_skip", "C18_skip_strict",
             "C18_stack", "C18_stack_strict", "C18_parse_and_stack_isolation", "C18_key_is_member_value",
-            "C18_stack_real", "C18_parse_and_stack_isolation_real"]
+            "C18_stack_real", "C18_parse_and_stack_isolation_real", "C18_parse_and_stack_isolation_exact",
+            "C18_parse_and_stack_isolation_exact_real", "C18_parse_and_stack_isolation_refuted"]
 ALLOWED_AXIOMS = []
 TRUSTED_BASE = [
     "reading a path (pydicom.dcmread) and the meta data extractor are INPUTS of the model: one read result per path "
@@ -45,7 +46,9 @@ ASSUMPTIONS = [
 ]
 RULE = ("file pools of 2-14 files: 1-4 series x 1-4 images (stack kind: slices x time points) differing in UID / number / protocol / "
         "orientation (other plane, or a zero component shifted by 2e-4..1e-3 = beyond tolerance; jitter <= 3e-5 inside a series), plus "
-        "1-3 faulty files; per pool 4-9 path lists: two shuffles without faults, each fault at first / last / random positions in warn "
+        "1-3 faulty files (garbage, text, empty, missing, truncated, pixel-less, and BIT ROT: a valid file with intact preamble/magic damaged "
+        "in the VR / length fields of element headers (dcmread raises) or in a data element so that dcmread succeeds lazily and the extractor raises, an open undefined-length sequence, a cut inside a header, a deflated transfer "
+        "syntax - kept when pydicom.dcmread raises, exception class recorded in the kind); per pool 4-9 path lists: two shuffles without faults, each fault at first / last / random positions in warn "
         "mode, strict lists with the fault in the middle and as the FIRST path. Tolerance kind: orientation values 3e-5..2e-4 apart "
         "(4.9e-5 / 5.2e-5 next to the documented tolerance), truth from the documented rule. Stack refusals: other Rows/Columns, PixelSpacing "
         "or orientation (group_by without the orientation) not close to the reference, ordinate outside abs_ordering (get_ordinate raises), "
@@ -55,11 +58,11 @@ RULE = ("file pools of 2-14 files: 1-4 series x 1-4 images (stack kind: slices x
         "at least one fault / refusal in some list")
 
 PIX = ('PixelData', 'FloatPixelData', 'DoubleFloatPixelData')
-CAND_ATTRS = PIX + ('Rows', 'Columns')
+CAND_ATTRS = PIX          # exactly the attributes is_image may probe (probing another one decodes it)
 DEFAULT_GROUP = ('SeriesInstanceUID', 'SeriesNumber', 'ProtocolName', 'ImageOrientationPatient')
 DEFAULT_CLOSE = ('ImageOrientationPatient',)
-FAULT_KINDS = ('garbage', 'trunc', 'text', 'empty', 'missing', 'nopix')
-MUST_RAISE = ('garbage', 'text', 'empty', 'missing')          # strict mode has to raise on these
+FAULT_KINDS = ('garbage', 'trunc', 'text', 'empty', 'missing', 'nopix', 'bitrot', 'bitrot', 'bitrotx', 'bitrotx', 'bitroti')
+MUST_RAISE = ('garbage', 'text', 'empty', 'missing', 'bitrot', 'bitrotx', 'bitroti')          # strict mode has to raise on these
 ERR_ENUM = ('EValue', 'EIndex', 'EKey', 'EType', 'EAttr', 'EIncongruent', 'ECollision', 'ENonImage', 'ECrash')
 
 
@@ -121,6 +124,8 @@ def _write_files(files, wd):
             assert pix > 150
             cut = 133 + int(sp['cut'] * (pix - 134))       # somewhere between the preamble and the pixel data element
             open(p, 'wb').write(raw[:cut])
+        elif k in ('bitrot', 'bitrotx', 'bitroti'):
+            open(p, 'wb').write(_rot_apply(_rot_ref(), sp['damage']))
         elif k == 'garbage':
             open(p, 'wb').write(bytes((i * 37 + sp['id']) % 256 for i in range(700)))
         elif k == 'text':
@@ -133,6 +138,141 @@ def _write_files(files, wd):
             raise ValueError(k)
         paths.append(p)
     return paths
+
+
+# ---- bit rot: a valid file (preamble and DICM magic intact) damaged so that pydicom.dcmread raises
+
+ROT_REF = {'id': 0, 'kind': 'img', 'uid': '1.2.840.1', 'num': 1, 'prot': 'a', 'iop': ['1', '0', '0', '0', '1', '0'],
+           'ipp': [0, 0, 0], 'acq': 1, 'tr': 2000, 'ped': 'ROW'}
+_ROT = {}
+
+
+def _rot_ref():
+    if 'raw' not in _ROT:
+        import io
+        buf = io.BytesIO()
+        _mk_ds(ROT_REF).save_as(buf, enforce_file_format=True)
+        _ROT['raw'] = buf.getvalue()
+    return _ROT['raw']
+
+
+def _rot_apply(raw, damage):
+    b = bytearray(raw)
+    for d in damage:
+        if d[0] == 'cut':
+            b = b[:d[1]]
+        elif d[0] == 'splice':
+            b = b[:d[1]] + bytearray.fromhex(d[3]) + b[d[1] + d[2]:]
+        elif d[1] < len(b):
+            b[d[1]] = (b[d[1]] ^ d[2]) if d[0] == 'xor' else d[2]
+    return bytes(b)
+
+
+def _rot_elements(raw):
+    """element headers of an explicit VR little endian file (File Meta group and data set)"""
+    import struct
+    long_vr = (b'OB', b'OW', b'OF', b'SQ', b'UT', b'UN', b'OD', b'OL', b'UC', b'UR', b'OV', b'SV', b'UV')
+    out, o = [], 132
+    while o + 8 <= len(raw):
+        tag = struct.unpack('<HH', raw[o:o + 4])
+        vr = raw[o + 4:o + 6]
+        if vr in long_vr:
+            if o + 12 > len(raw):
+                break
+            ln, hdr, lo = struct.unpack('<I', raw[o + 8:o + 12])[0], 12, (o + 8, 4)
+        else:
+            ln, hdr, lo = struct.unpack('<H', raw[o + 6:o + 8])[0], 8, (o + 6, 2)
+        out.append({'tag': tag, 'off': o, 'len': ln, 'hdr': hdr, 'lenoff': lo, 'val': o + hdr})
+        if ln == 0xFFFFFFFF:
+            break
+        o += hdr + ln
+    return out
+
+
+def _rot_catalogue():
+    """[(damage, exception class)]: every candidate damage (bit flips / overwrites in the VR and length fields of every
+    element header, an open undefined-length sequence, cuts inside element headers, a deflated transfer syntax UID, an
+    item without terminator) for which pydicom.dcmread of the installed, unchanged pydicom raises; deterministic"""
+    if 'cat' in _ROT:
+        return _ROT['cat']
+    import io, struct
+    import pydicom
+    raw = _rot_ref()
+    els = _rot_elements(raw)
+    cands = []
+    for e in els:
+        o = e['off']
+        for i in range(2):
+            for bit in range(8):
+                cands.append([['xor', o + 4 + i, 1 << bit]])
+        for v in (b'ZZ', b'SQ', b'UN', b'OB', b'  ', b'\x00\x00'):
+            cands.append([['set', o + 4 + j, v[j]] for j in range(2)])
+        lo, ll = e['lenoff']
+        for j in range(ll):
+            for bit in (0, 3, 7):
+                cands.append([['xor', lo + j, 1 << bit]])
+        cands.append([['set', lo + j, 0xFF] for j in range(ll)])
+        for k in (2, 5, 7, 9, 10):
+            if k < e['hdr']:
+                cands.append([['cut', o + k]])
+        cands.append([['set', o + 4, ord('S')], ['set', o + 5, ord('Q')], ['set', o + 6, 0], ['set', o + 7, 0]] +
+                     [['set', o + 8 + j, 0xFF] for j in range(4)])
+    ts = [e for e in els if e['tag'] == (2, 16)]
+    first_ds = [e for e in els if e['tag'][0] > 2]
+    if ts:
+        uid = b'1.2.840.10008.1.2.1.99'          # deflated: the data set is not a zlib stream
+        cands.append([['splice', ts[0]['val'], ts[0]['len'], uid.hex()],
+                      ['splice', ts[0]['lenoff'][0], 2, struct.pack('<H', len(uid)).hex()]])
+    if first_ds:
+        seq = struct.pack('<HH', 0x0008, 0x1140) + b'SQ\x00\x00' + b'\xff\xff\xff\xff' + struct.pack('<HHI', 0xFFFE, 0xE000, 0xFFFFFFFF)
+        cands.append([['splice', first_ds[0]['off'], 0, seq.hex()], ['cut', first_ds[0]['off'] + len(seq) + 100]])
+    for e in els:
+        for j in range(min(e['len'], 4)):
+            cands.append([['xor', e['val'] + j, 0x40]])
+    cat, catx, cati = [], [], []
+    with warnings.catch_warnings():
+        warnings.simplefilter('ignore')
+        for dmg in cands:
+            b = _rot_apply(raw, dmg)
+            if b[128:132] != b'DICM':
+                continue
+            try:
+                ds = pydicom.dcmread(io.BytesIO(b))
+            except Exception as e:
+                cat.append((dmg, type(e).__module__.split('.')[0] + '.' + type(e).__name__))
+                continue
+            # read without error (lazy parsing): still an image whose elements cannot all be decoded?  (pydicom only:
+            # every extractor has to walk the elements)
+            try:
+                if not any(hasattr(ds, a) for a in PIX):
+                    continue
+            except Exception as e:   # the pixel data element itself is damaged: the image test raises
+                cati.append((dmg, type(e).__module__.split('.')[0] + '.' + type(e).__name__))
+                continue
+            try:
+                [x.value for x in ds]
+            except Exception as e:
+                catx.append((dmg, type(e).__module__.split('.')[0] + '.' + type(e).__name__))
+    _ROT['cat'], _ROT['catx'], _ROT['cati'] = cat, catx, cati
+    return cat
+
+
+def _rot_pick_x(rng):
+    _rot_catalogue()
+    return rng.choice(_ROT['catx'])
+
+
+def _rot_pick_i(rng):
+    _rot_catalogue()
+    return rng.choice(_ROT['cati'])
+
+
+def _rot_pick(rng, cls=None):
+    cat = _rot_catalogue()
+    classes = sorted(set(c for _, c in cat))
+    cls = cls or rng.choice(classes)
+    dmg, c = rng.choice([x for x in cat if x[1] == cls])
+    return dmg, c
 
 
 def _id_of(path):
@@ -194,10 +334,16 @@ def _read_one(path, keys, force):
             ds = pydicom.dcmread(path, force=force)
         except Exception as e:
             return {'fault': _errclass(e), 'exc': type(e).__name__, 'fw': len(ws)}
-        attrs = [a for a in CAND_ATTRS if hasattr(ds, a)]
+        try:
+            attrs = [a for a in CAND_ATTRS if hasattr(ds, a)]
+        except Exception as e:           # the image test decodes the pixel data element: a read-level fault
+            return {'fault': _errclass(e), 'exc': type(e).__name__, 'stage': 'image-test', 'fw': len(ws)}
         meta = {}
         if any(a in PIX for a in attrs):
-            m = default_extractor(ds)
+            try:
+                m = default_extractor(ds)
+            except Exception as e:       # pydicom parses lazily: a damaged element only fails when it is extracted
+                return {'attrs': attrs, 'xfault': _errclass(e), 'exc': type(e).__name__, 'fw': len(ws)}
             for k in keys:
                 meta[k] = _enc_val(m.get(k))
     return {'attrs': attrs, 'meta': meta, 'fw': len(ws)}
@@ -262,7 +408,7 @@ def _stack_summary(st):
             h = hashlib.sha1(nii.to_bytes()).hexdigest()
         except Exception as e:
             h = 'err:' + type(e).__name__
-        out.append({'ids': _stack_file_ids(s, nii), 'hash': h})
+        out.append({'ids': _stack_file_ids(s, nii), 'hash': h, 'key': [_enc_val(x) for x in key]})
     out.sort(key=lambda x: x['ids'] if x['ids'] is not None else [-1])
     return out
 
@@ -371,6 +517,8 @@ def _cerr(e):
 def _cread(i, r):
     if 'fault' in r:
         return '(Fault %s)' % _cerr(r['fault'])
+    if 'xfault' in r:
+        return '(ExtractFault %s %s)' % (clist(cstr(a) for a in r['attrs']), _cerr(r['xfault']))
     return '(Data %s %s (mget %s))' % (clist(cstr(a) for a in r['attrs']), cnat(i),
                                        clist(cpair(cstr(k), _cgval(v)) for k, v in r['meta'].items()))
 
@@ -500,17 +648,19 @@ def _read_mismatch(case, sp, r):
     force = bool(case.get('force'))
     is_fault = 'fault' in r
     has_pix = (not is_fault) and any(a in PIX for a in r.get('attrs', []))
+    if k == 'bitrotx' and not force:
+        return None if (not is_fault and has_pix and 'xfault' in r) else 'a file with an undecodable element did not fail at extraction'
     if k == 'img':
-        if is_fault or not has_pix:
+        if is_fault or not has_pix or 'xfault' in r:
             return 'an image file was not read as an image'
         return _key_mismatch(case, [r['meta'].get(g) for g in _gb(case)], sp, exact=True)
     if k == 'missing':
         return None if is_fault else 'a missing path was read'
     if k == 'nopix':
         return None if (not is_fault and not has_pix) else 'a pixel-less data set was not read as one'
-    if k in ('garbage', 'text', 'empty') and not force:
+    if k in ('garbage', 'text', 'empty', 'bitrot', 'bitroti') and not force:
         return None if is_fault else 'a non-DICOM file was read without force'
-    return 'an unreadable / truncated file was read as an image' if has_pix else None
+    return 'an unreadable / truncated file was read as an image' if (has_pix and 'xfault' not in r) else None
 
 
 def _same_values(case, a, b):
@@ -546,6 +696,34 @@ def _pair_problem(case, a, b):
         elif a.get(FLD[k]) != b.get(FLD[k]):
             return '%s differs (%r / %r)' % (k, a.get(FLD[k]), b.get(FLD[k]))
     return None
+
+
+def _keys_related(case, k1, k2):
+    """equal on the exactly compared entries, within the documented tolerance (either direction) on the others"""
+    gb, ct = _gb(case), list(DEFAULT_CLOSE)        # parse_and_stack does not forward close_tests
+    if len(k1) != len(gb) or len(k2) != len(gb):
+        return False
+    for k, a, b in zip(gb, k1, k2):
+        x, y = _dec_val(a), _dec_val(b)
+        if k in ct and isinstance(x, tuple) and isinstance(y, tuple) and x and y and x[0] != '?' and y[0] != '?':
+            if len(x) != len(y) or not all(abs(p - q) <= DOC_ATOL + DOC_RTOL * max(abs(p), abs(q)) for p, q in zip(x, y)):
+                return False
+        elif x != y or type(x) is not type(y):
+            return False
+    return True
+
+
+def _same_up_to_keys(case, a, b):
+    if not isinstance(a, list) or not isinstance(b, list) or len(a) != len(b):
+        return False
+    bb = {tuple(x['ids']): x for x in b}
+    if len(bb) != len(b):
+        return False
+    for x in a:
+        y = bb.get(tuple(x['ids']))
+        if y is None or y['hash'] != x['hash'] or not _keys_related(case, x['key'], y['key']):
+            return False
+    return True
 
 
 def _certainly_unreadable(case, kind):
@@ -687,7 +865,12 @@ def _oracle(case, obs):
         n_classes = len(set(_label(case, files[i]) for i in want_in))
         if len(o['stacks']) != n_classes:
             return 'stack list %d (%s): %d stacks for %d groups with an accepted file' % (n, S['order'], len(o['stacks']), n_classes)
-        if o['without'] != o['stacks']:
+        for x in o['stacks']:
+            for i in x['ids']:
+                mm = _key_mismatch(case, x['key'], files[i])
+                if mm:
+                    return 'stack list %d (%s): stack key %s is not the tuple of group-by values of its file %d: %s' % (n, S['order'], x['key'], i, mm)
+        if not _same_up_to_keys(case, o['stacks'], o['without']):
             return ('stack list %d (%s): the result differs from the result of the same list without the skipped / refused files %s: %s vs %s'
                     % (n, S['order'], sorted(set(S['order']) - set(in_stacks)), o['stacks'], o['without']))
     return None
@@ -793,6 +976,12 @@ def _fault_files(rng, start, n, like):
             sp.update({f: like[f] for f in ('uid', 'num', 'prot', 'iop')})
         if k == 'trunc':
             sp['cut'] = rng.choice([0.0, 0.1, 0.35, 0.5, 0.8, 0.99])
+        if k == 'bitrot':
+            sp['damage'], sp['exc'] = _rot_pick(rng)
+        if k == 'bitrotx':
+            sp['damage'], sp['exc'] = _rot_pick_x(rng)
+        if k == 'bitroti':
+            sp['damage'], sp['exc'] = _rot_pick_i(rng)
         out.append(sp)
     return out
 
@@ -857,6 +1046,37 @@ def _gen_mix(rng, custom=False):
     if rng.random() < 0.15:
         case['force'] = True              # parse_and_group(force=True): non-DICOM files become pixel-less data sets
     return case
+
+
+def _gen_rot(rng):
+    """structurally damaged real DICOM files (magic intact): one exception class of pydicom.dcmread per case"""
+    ser = _series(rng, rng.choice([1, 2]))
+    files = []
+    for s in ser:
+        for _ in range(rng.choice([1, 2, 3])):
+            files.append({'id': len(files), 'kind': 'img', 'uid': s['uid'], 'num': s['num'], 'prot': s['prot'],
+                          'iop': _iop(rng, PLANES[s['plane']], s['shift'], True), 'cluster': _cluster_id(s), 'ipp': [0, 0, len(files)]})
+    imgs = [f['id'] for f in files]
+    r0 = rng.random()
+    if r0 < 0.2:
+        dmg, cls = _rot_pick_i(rng)
+        faults = [{'id': len(files), 'kind': 'bitroti', 'damage': dmg, 'exc': cls}]
+        cls = 'image-test:' + cls
+    elif r0 < 0.5:
+        dmg, cls = _rot_pick_x(rng)
+        faults = [{'id': len(files), 'kind': 'bitrotx', 'damage': dmg, 'exc': cls}]
+        if rng.random() < 0.4:
+            d2, c2 = _rot_pick_x(rng)
+            faults.append({'id': len(files) + 1, 'kind': 'bitrotx', 'damage': d2, 'exc': c2})
+        cls = 'extract:' + cls
+    else:
+        dmg, cls = _rot_pick(rng)
+        faults = [{'id': len(files), 'kind': 'bitrot', 'damage': dmg, 'exc': cls}]
+        if rng.random() < 0.4:
+            d2, _ = _rot_pick(rng, cls)
+            faults.append({'id': len(files) + 1, 'kind': 'bitrot', 'damage': d2, 'exc': cls})
+    files += faults
+    return {'kind': 'bitrot/' + cls, 'files': files, 'lists': _lists_with_faults(rng, imgs, [f['id'] for f in faults], 1), 'stacks': []}
 
 
 def _gen_chain(rng):
@@ -1099,11 +1319,13 @@ def gen_cases(rng, tier):
             out.append(_gen_mix(rng))
         elif r < 0.45:
             out.append(_gen_mix(rng, custom=True))
-        elif r < 0.57:
+        elif r < 0.55:
             out.append(_gen_tol(rng))
         elif r < 0.63:
+            out.append(_gen_rot(rng))
+        elif r < 0.67:
             out.append(_gen_chain(rng))
-        elif r < 0.69:
+        elif r < 0.71:
             out.append(_gen_none(rng))
         else:
             out.append(_gen_stack(rng))
